@@ -545,6 +545,7 @@ func (c *Conn) closeWithError(err error) {
 		c.calls = nil
 	}
 	c.mu.Unlock()
+	verifPoint("close.marked")
 
 	for _, req := range callsToClose {
 		// we need to send the error to all waiting queries.
@@ -562,6 +563,7 @@ func (c *Conn) closeWithError(err error) {
 	}
 
 	// if error was nil then unblock the quit channel
+	verifPoint("close.delivered")
 	c.cancel()
 	cerr := c.close()
 
@@ -675,6 +677,7 @@ func (c *Conn) recv(ctx context.Context) error {
 	if err != nil {
 		return err
 	}
+	verifPoint("recv.header")
 
 	if c.frameObserver != nil {
 		c.frameObserver.ObserveFrameHeader(context.Background(), ObservedFrameHeader{
@@ -725,6 +728,7 @@ func (c *Conn) recv(ctx context.Context) error {
 	call, ok := c.calls[head.stream]
 	delete(c.calls, head.stream)
 	c.mu.Unlock()
+	verifPoint("recv.claimed")
 	if call == nil || !ok {
 		c.logger.Printf("gocql: received response for stream which has no handler: header=%v\n", head)
 		return c.discardFrame(head)
@@ -745,6 +749,7 @@ func (c *Conn) recv(ctx context.Context) error {
 
 	// we either, return a response to the caller, the caller timedout, or the
 	// connection has closed. Either way we should never block indefinatly here
+	verifPoint("recv.deliver")
 	select {
 	case call.resp <- callResp{framer: framer, err: err}:
 	case <-call.timeout:
@@ -760,6 +765,7 @@ func (c *Conn) releaseStream(call *callReq) {
 		call.timer.Stop()
 	}
 
+	verifPoint("release")
 	c.streams.Clear(call.streamID)
 
 	if call.streamObserverContext != nil {
@@ -841,6 +847,7 @@ func (c *deadlineContextWriter) writeContext(ctx context.Context, p []byte) (int
 	case c.semaphore <- struct{}{}:
 		// acquired
 	}
+	verifPoint("dw.acquired")
 
 	defer func() {
 		// release
@@ -910,6 +917,7 @@ func (w *writeCoalescer) writeContext(ctx context.Context, p []byte) (int, error
 	case w.writeCh <- wr:
 		// enqueued for writing
 	}
+	verifPoint("wc.enqueued")
 
 	if w.testEnqueuedHook != nil {
 		w.testEnqueuedHook()
@@ -959,7 +967,9 @@ func (w *writeCoalescer) writeFlusherImpl(timerC <-chan time.Time, resetTimer fu
 			return
 		case <-timerC:
 			running = false
+			verifPoint("wc.flush")
 			w.flush(resultChans, buffers)
+			verifPoint("wc.flushed")
 			buffers = nil
 			resultChans = nil
 			if w.testFlushedHook != nil {
@@ -1036,6 +1046,7 @@ func (c *Conn) exec(ctx context.Context, req frameBuilder, tracer Tracer) (*fram
 	if !ok {
 		return nil, ErrNoStreams
 	}
+	verifPoint("exec.stream")
 
 	// resp is basically a waiting semaphore protecting the framer
 	framer := newFramer(c.compressor, c.version)
@@ -1053,6 +1064,7 @@ func (c *Conn) exec(ctx context.Context, req frameBuilder, tracer Tracer) (*fram
 	if err := c.addCall(call); err != nil {
 		return nil, err
 	}
+	verifPoint("exec.registered")
 
 	// After this point, we need to either read from call.resp or close(call.timeout)
 	// since closeWithError can try to write a connection close error to call.resp.
@@ -1086,7 +1098,9 @@ func (c *Conn) exec(ctx context.Context, req frameBuilder, tracer Tracer) (*fram
 		return nil, err
 	}
 
+	verifPoint("exec.built")
 	n, err := c.w.writeContext(ctx, framer.buf)
+	verifPoint("exec.written")
 	if err != nil {
 		// closeWithError will block waiting for this stream to either receive a response
 		// or for us to timeout, close the timeout chan here. Im not entirely sure
@@ -1140,6 +1154,7 @@ func (c *Conn) exec(ctx context.Context, req frameBuilder, tracer Tracer) (*fram
 	select {
 	case resp := <-call.resp:
 		close(call.timeout)
+		verifPoint("exec.left.resp")
 		if resp.err != nil {
 			if !c.Closed() {
 				// if the connection is closed then we cant release the stream,
@@ -1165,13 +1180,16 @@ func (c *Conn) exec(ctx context.Context, req frameBuilder, tracer Tracer) (*fram
 		return resp.framer, nil
 	case <-timeoutCh:
 		close(call.timeout)
+		verifPoint("exec.left.timeout")
 		c.handleTimeout()
 		return nil, ErrTimeoutNoResponse
 	case <-ctxDone:
 		close(call.timeout)
+		verifPoint("exec.left.ctx")
 		return nil, ctx.Err()
 	case <-c.ctx.Done():
 		close(call.timeout)
+		verifPoint("exec.left.closed")
 		return nil, ErrConnectionClosed
 	}
 }
